@@ -39,8 +39,10 @@ def run(run):
     run.bounds["kernel moves [S] (n, element)"] = kn
     run.pmap("bk.move_check", bk.move_check, kn)
     items = sweep.make_items(run, cfgs, ["wellformed"], light=light, heavy=heavy,
-                             strata=({"*": ["cycles3", "comp3plus1"]} if run.thorough else
-                                     {"ParCons(1,Copeland)": [("comp3plus1", 6)], "ParCons": [("cycles3", 3)],
+                             strata=({"*": ["cycles3", "comp3plus1"], "ParCons": ["cycles3", "comp3plus1", "two_cycles6"], "ParCons(nocplex)": ["cycles3", "comp3plus1", ("two_cycles6", 2)],
+                                      "ParCons(1,Copeland)": ["cycles3", "comp3plus1", "two_cycles6"]} if run.thorough else
+                                     {"ParCons(1,Copeland)": [("comp3plus1", 6), ("two_cycles6", 2)], "ParCons": [("cycles3", 3), ("two_cycles6", 2)],
+                                      "ParCons(nocplex)": [("two_cycles6", 1)],
                                       "ExactPulp": [("cycles3", 3)], "ExactCplex(noopt)": [("cycles3", 3)]}),
                              strata_heavy=({"ParCons(1,BioConsert)": [("comp3plus1", 4)]} if run.thorough else {}))
     items += sweep.history_items(run, [c for c in cfgs if c not in sweep.HEAVY or run.thorough], ["wellformed"], 4 if run.thorough else 2)
